@@ -314,7 +314,14 @@ fn write_project(dir: &Path, r: &mut Rng, cfg: &TrendConfig, auto: bool, content
 
 fn emit_binary_history(sink: &mut Sink, r: &mut Rng, scratch: &str, bin: &str, steps: usize) {
     let dir = PathBuf::from(scratch).join(format!("h{}", sink.n));
-    let cfg = gen_cfg(r, false);
+    let mut cfg = gen_cfg(r, false);
+    // the second history of a run: a full history (max_entries = 2) and auto-snapshotting checks
+    let second = sink.n == steps;
+    if second {
+        cfg.max_entries = Some(2);
+        cfg.min_interval_secs = None;
+        cfg.max_age_days = None;
+    }
     // the first history of a run always has a content-excluded file and starts with an
     // auto-snapshotting check (the known finding is reproduced on every run)
     let first = sink.n == 0;
@@ -344,7 +351,8 @@ fn emit_binary_history(sink: &mut Sink, r: &mut Rng, scratch: &str, bin: &str, s
         }
         let before = p.history();
         let whole = p.summary(now);
-        let op = if first && sink.n == 0 { let _ = r.below(11); 4 } else { r.below(11) };
+        let op = if (first && sink.n == 0) || (second && sink.n < steps + 5) { let _ = r.below(11); 4 } else { r.below(11) };
+        if second { now += 3_600; }
         let (since_txt, since_secs): (&str, u64) = *r.fork().pick(&[("1h", 3_600u64), ("2d", 172_800), ("400d", 34_560_000), ("90s", 90)]);
         let narrowed: &[&str] = *r.fork().pick(&[&["--exclude", "src/a.rs"][..], &["--ext", "rs"][..], &["src/a.rs", "src/b.rs"][..], &["--include", "src/b.rs"][..]]);
         let (label, force, dry, restricted): (&str, bool, bool, bool) = match op {
